@@ -493,6 +493,68 @@ theorem C07_schedule_fm_partial (d : Data) (song : Song) (tags : Vgm.Tags) (ops 
     (TickStream.hooks_of song root (fun t => t ≠ ev_SLUR) (by decide) hnoslur) _ hrel k
     (fun j hj => h6 j (by omega))
 
+/-! ### non-vacuity of the whole-log theorems -/
+/-- FM channel A: `note 40 (on 2, off 1)  L  note 42 (on 2, off 2)` -/
+def exLoopRoot : List Event := [⟨ev_NOTE, 40, 2, 1⟩, ⟨ev_SEGNO, 0, 0, 0⟩, ⟨ev_NOTE, 42, 2, 2⟩]
+def exLoopSong : Song := { tracks := [(0, exLoopRoot)] }
+def exLoopItems : List Expand.Item := exLoopRoot.map Expand.item
+def exNoTags : Vgm.Tags :=
+  { title := [], titleJ := [], game := [], gameJ := [], system := [], systemJ := [], author := [], authorJ := [],
+    date := [], creator := [], notes := [] }
+
+/-- the looping list machine on this track: note 40 at tick 0, its synthetic rest at tick 2, the
+loop point and note 42 at tick 3, rest at 5; at tick 7 the items have run out: note 42 again
+(second pass), rest at 9, note 42 at tick 11 (third pass), … -/
+example : ((TickStream.lxRun 12 (TickStream.lxInit exLoopItems)).map fun l => l.map fun e => (e.type, e.param)) =
+    [[(ev_NOTE, 40)], [], [(ev_REST, 0)], [(ev_SEGNO, 0), (ev_NOTE, 42)], [], [(ev_REST, 0)], [],
+     [(ev_NOTE, 42)], [], [(ev_REST, 0)], [], [(ev_NOTE, 42)]] := by decide
+
+/-- without a loop point the machine delivers `END` once and then nothing -/
+example : ((TickStream.lxRun 5 (TickStream.lxInit [Expand.item ⟨ev_NOTE, 40, 2, 0⟩])).map fun l => l.map fun e => e.type) =
+    [[ev_NOTE], [], [ev_END], [], []] := by decide
+
+/-- a loop section that takes no time ends the track (`c L`): `END` at tick 2 -/
+example : ((TickStream.lxRun 4 (TickStream.lxInit [Expand.item ⟨ev_NOTE, 40, 2, 0⟩, Expand.item ⟨ev_SEGNO, 0, 0, 0⟩])).map
+      fun l => l.map fun e => e.type) = [[ev_NOTE], [], [ev_SEGNO, ev_END], []] := by decide
+
+/-- the hypotheses of `C07_tick_delivery_all_passes` and `C07_schedule_fm_partial` hold for this song -/
+example :
+    (∃ ops, exportOps { ins := [] } exLoopSong exNoTags = .ok ops) ∧ SingleTrack exLoopSong 0 exLoopRoot ∧
+    Refine.SongNoEnd exLoopSong ∧ Tree.NoEnd exLoopRoot ∧ TickStream.PlainCode exLoopSong exLoopRoot ∧
+    (∀ tr e, e ∈ codeOf exLoopSong exLoopRoot tr → e.type ≠ ev_SLUR) ∧
+    Expand.perf exLoopSong exLoopRoot = .ok exLoopItems ∧
+    (∀ k outs, Refine.stepsCore exLoopSong exLoopRoot k ⟨.root, 0, []⟩ = .ok (⟨.root, exLoopRoot.length, []⟩, outs) →
+      2 * k + 2 ≤ PlayerCh.settleFuel) ∧
+    (∀ k, TickStream.SegTop exLoopSong exLoopRoot k ⟨.root, 0, []⟩) := by
+  have hall := TickStream.songNoEnd_of_all exLoopSong exLoopRoot (by decide)
+  refine ⟨?_, ⟨[], rfl, by decide, by simp⟩, hall.1, hall.2, ?_, ?_, rfl, ?_, ?_⟩
+  · have h : (match exportOps { ins := [] } exLoopSong exNoTags with | .ok _ => true | .error _ => false) = true := by
+      decide +kernel
+    cases hx : exportOps { ins := [] } exLoopSong exNoTags with
+    | ok ops => exact ⟨ops, rfl⟩
+    | error e => rw [hx] at h; cases h
+  · exact TickStream.of_allEvents exLoopSong exLoopRoot (fun e => e.type ≠ ev_PLATFORM ∧ e.type ≠ ev_DRUM_MODE) (by decide)
+  · exact TickStream.of_allEvents exLoopSong exLoopRoot (fun e => e.type ≠ ev_SLUR) (by decide)
+  · exact TickStream.fuel_of_run exLoopSong exLoopRoot 3
+      [.hook ⟨ev_NOTE, 40, 2, 1⟩ ⟨ev_NOTE, 40, 2, 1⟩, .hook ⟨ev_SEGNO, 0, 0, 0⟩ ⟨ev_SEGNO, 0, 0, 0⟩, .hook ⟨ev_NOTE, 42, 2, 2⟩ ⟨ev_NOTE, 42, 2, 2⟩]
+      _ rfl (by unfold PlayerCh.settleFuel; decide)
+  · exact TickStream.segTop_one_segno exLoopSong exLoopRoot hall.1 [⟨ev_NOTE, 40, 2, 1⟩] [⟨ev_NOTE, 42, 2, 2⟩] ⟨ev_SEGNO, 0, 0, 0⟩ rfl
+      hall.2 (by decide) [Expand.item ⟨ev_NOTE, 40, 2, 1⟩] [Expand.item ⟨ev_NOTE, 42, 2, 2⟩] rfl rfl (by decide) (by decide)
+
+/-- the log of this song, update by update (default tempo: one tick per update): key-off and
+key-on of note 40 in update 0, its key-off in update 2, the loop marker, key-off and key-on of
+note 42 in update 3, key-off in update 5, note 42 again in update 7 (second pass), after which
+the loop count is 1 and the export stops: `K = 7`, 5145 samples -/
+example :
+    ((List.range 8).map fun k => (keysV (updOps { ins := [] } exLoopSong (playSong { ins := [] } exLoopSong).1 k),
+      (updMark { ins := [] } exLoopSong (playSong { ins := [] } exLoopSong).1 k).length,
+      (updRun { ins := [] } exLoopSong k (playSong { ins := [] } exLoopSong).1).ticks)) =
+    [([0, 0xf0], 0, 0), ([], 0, 1), ([0], 0, 2), ([0, 0xf0], 1, 3), ([], 0, 4), ([0], 0, 5), ([], 0, 6), ([0, 0xf0], 0, 7)] ∧
+    (match exportOps { ins := [] } exLoopSong exNoTags with
+      | .ok ops => delaySum ops
+      | .error _ => 0) = 735 * 7 := by
+  decide +kernel
+
 /-! ### the full statement (not proved; decided per export by the schedule oracle) -/
 /-- no keyed note ends inside the update it starts in: an update plays at most two ticks
 (`C07_tempo_step_le_two`), so an on-time of at least two ticks suffices; this is the exclusion of
